@@ -43,3 +43,19 @@ theorem key_comments (eol : List Char) (m single : Bool) (kl kt el et : List Tri
     simp [keyLeading, commentsOut_append, commentsOut_lines, commentsOut_only, commentsOut_raw, commentsIn_append, h1, h2,
       commentsOut, List.append_assoc]
 end StyluaModel.FieldKeyLemmas
+
+namespace StyluaModel.PunctLemmas
+open StyluaModel.Trivia StyluaModel.Semi StyluaModel.FieldKey StyluaModel.HangOp StyluaModel.Punct
+open StyluaModel.SemiLemmas StyluaModel.TriviaLemmas StyluaModel.HangOpLemmas StyluaModel.FieldKeyLemmas
+
+theorem prepend_comments (vLead : List Out) : commentsOut (prependNewlineIndent vLead) = commentsOut vLead := by
+  simp [prependNewlineIndent, commentsOut_append, commentsOut_ownLine, commentsOut_only, commentsOut]
+
+theorem after_comments (eol : List Char) (vTrail : List Out) (pl pt : List Triv) :
+    commentsOut (outs (afterValue eol vTrail pl pt)) =
+      norm eol (commentsIn pl) ++ commentsOut vTrail ++ norm eol (commentsIn pt) := by
+  have h1 : commentsOut (load eol .leading pl) = norm eol (commentsIn pl) := load_comments eol .leading pl 0 false
+  have h2 : commentsOut (load eol .trailing pt) = norm eol (commentsIn pt) := load_comments eol .trailing pt 0 false
+  simp only [afterValue, outs, List.filterMap_append, List.filterMap_map, Function.comp_def]
+  simp [commentsOut_append, h1, h2, sameLine, commentsOut_spaced, commentsOut_only, List.append_assoc]
+end StyluaModel.PunctLemmas
